@@ -17,7 +17,7 @@ from . import signals
 
 PID = 'C07'
 TIMEOUT = 120.0
-RULE = ('spec: each signal runs every k-th point of the 3888-point mask configuration grid (x 4 option sets rotating with the grid index) with a rotating offset '
+RULE = ('spec: each signal runs every k-th point of the 4536-point mask configuration grid (x 4 option sets rotating with the grid index) with a rotating offset '
         '(union over signals covers the grid); single: get_next_imf_mask over a frequency x amplitude x nphases grid; '
         'sched: every canonical chunk->worker assignment per (nphases, nprocesses) incl. chunks of several jobs; '
         'reuse: every sequence of d in-place edits (8-edit alphabet) of one caller-owned set of option dictionaries with a masked '
@@ -31,7 +31,7 @@ ASSUMPTIONS = ['the specification uses emd.sift.get_next_imf (captured before in
                'amplitude) are a guard band: counted, not judged',
                'Pool.starmap chunking follows CPython; workers share no memory']
 
-SOURCES = ('zc', 'if', 0.3, 0.12, 'list3', 'list1')
+SOURCES = ('zc', 'if', 0.3, 0.12, 'list3', 'list1', 'list3u')
 MODES = ('abs', 'ratio_sig', 'ratio_imf')
 AMPKIND = ('scalar', 'array', 'zero')
 OPTSETS = (None,
@@ -44,6 +44,7 @@ CAPS = (1, 3, 9)
 GRID = list(itertools.product(SOURCES, MODES, AMPKIND, STEPS, NPH, CAPS))
 LIST3 = (0.3, 0.11, 0.04)
 LIST1 = (0.2,)
+LIST3U = (0.04, 0.3, 0.11)      # the user's list in the user's order (not monotone)
 AMPARRAY = (1.0, 0.0, 2.0, 0.75, 0.0, 0.25, 1.25, 0.6, 0.9)    # per-IMF amplitudes, two layers with a zero mask
 
 _orig = {}
@@ -265,6 +266,8 @@ def spec_freqs(x, source, step, cap, opts=None):
         return np.array(LIST3), min(cap, 3)
     if source == 'list1':
         return np.array(LIST1), min(cap, 1)
+    if source == 'list3u':
+        return np.array(LIST3U), min(cap, 3)
     z0 = spec_first_freq(X, source, opts)
     return np.array([z0 / step ** k for k in range(cap)]), cap
 
@@ -314,6 +317,8 @@ def impl_kwargs(source, mode, ampkind, step, nph, cap, opts=None):
         kw['mask_freqs'] = np.array(LIST3)
     elif source == 'list1':
         kw['mask_freqs'] = np.array(LIST1)
+    elif source == 'list3u':
+        kw['mask_freqs'] = list(LIST3U) if cap % 2 else np.array(LIST3U)
     else:
         kw['mask_freqs'] = source
     return kw
